@@ -215,7 +215,7 @@ func VerifC20Admission() {
 			if i == 0 || vs.Param("second_full") == 1 {
 				shape = vs.Pick("shape", 5)
 			} else {
-				shape = []int{0, 1, 4}[vs.Pick("shape", 3)]
+				shape = []int{1, 4}[vs.Pick("shape", 2)]
 			}
 			rich = rich && shape == 4
 			switch shape {
